@@ -30,3 +30,22 @@ package server
 //@   invariant 0 <= i
 //@ loop 2
 //@   invariant length >= 1 && len(cmds) == length && len(handlers) == length && fresh(cmds) && (forall k int :: 0 <= k && k < len(cmds) ==> len(cmds[k].Args) == len(cmd.Args) && fresh(cmds[k].Args))
+
+// ---- multi-key commands (EXISTS / DEL / PLSET) regrouped per partition ----
+// Every argument key (with its value for PLSET) is appended, in argument order, to the sub-command of exactly the
+// partition the primary-key hash selects; entries appended earlier are preserved; no key is skipped
+// (ghost(mapupd, cmdArgMap) counts the regrouping steps, one per key).
+//@ property C15
+//@ noeffect (*github.com/youzan/ZanRedisDB/common.LevelLogger).Level (*github.com/youzan/ZanRedisDB/common.LevelLogger).Debugf
+//@ func (s *Server) getHandlersForKeys(cmdName string, origArgs [][]byte) ([]common.MergeCommandFunc, []redcon.Command, bool, error)
+//@   opt autoloops
+//@   requires s != nil && s.nsMgr != nil && nsMetasOK(s.nsMgr) && kvNodesOK(s.nsMgr)
+//@   requires forall k string :: in(k, s.nsMgr.kvNodes) ==> s.nsMgr.kvNodes[k].Node != nil
+//@   mapassert cmdArgMap key == nnName(nsNode) && nsNode == s.nsMgr.kvNodes[nsDesp(ns, int(murmur3sum(realKey)) % s.nsMgr.nsMetas[ns].PartitionNum)] && (cmdName != "plset" ==> len(value) >= 2 && sameSlice(value[len(value)-1], arg) && (in(key, cmdArgMap) ==> len(value) == len(cmdArgMap[key]) + 1 && (forall j int :: 0 <= j && j < len(cmdArgMap[key]) ==> sameSlice(value[j], cmdArgMap[key][j])))) && (cmdName == "plset" ==> len(value) >= 3 && sameSlice(value[len(value)-2], arg) && sameSlice(value[len(value)-1], vals[kindex]) && (in(key, cmdArgMap) ==> len(value) == len(cmdArgMap[key]) + 2 && (forall j int :: 0 <= j && j < len(cmdArgMap[key]) ==> sameSlice(value[j], cmdArgMap[key][j]))))
+//@   modifies *
+//@ loop 1
+//@   invariant ghost(mapupd, cmdArgMap) == iter
+//@   invariant forall p string :: in(p, cmdArgMap) ==> len(cmdArgMap[p]) >= 1
+//@ loop 2
+//@   invariant len(vals) == len(origKeys) && i % 2 == 0 && 2 * len(origKeys) == i && fresh(origKeys) && fresh(vals) && origKeys.arr != vals.arr
+//@   invariant forall j int :: 0 <= j && j < len(origKeys) ==> sameSlice(origKeys[j], origArgs[2*j]) && sameSlice(vals[j], origArgs[2*j+1])
